@@ -1,7 +1,7 @@
 (* C10 — A swap that succeeds honours max_spread and belief_price.
    bp = belief price, ms = max spread (atomics of 10^-18); (o, r, s) = offer, return, spread
    after the decimals normalisation of assert_max_spread ([C10_normalise] says what that is). *)
-From HT Require Import Base.Prelude Num.Arith Amm.Formulas Amm.Guards Proofs.SpreadProofs.
+From HT Require Import Base.Prelude Num.Arith Amm.Formulas Amm.Guards World.World Proofs.SpreadProofs Proofs.GuardSysProofs.
 
 Theorem C10_structure :
   forall bp ms offer ret spread od rd,
@@ -69,6 +69,18 @@ Example C10_nonvacuous :
   assert_max_spread None (Some 10000000000000000) 1000000 989999 9999 6 18 = Ok tt.
 Proof. repeat split; vm_compute; reflexivity. Qed.
 
+(* system level: whatever state other traders left, a swap that succeeds passed the guard evaluated on
+   ITS OWN executed offer / return / spread with the decimals of the offered and asked asset (by position);
+   the quantifier over interleavings is the universal quantifier over the pre-state [w] *)
+Theorem C10_sys : forall w p ps funds sender offer amount bp ms to w' ret spread comm,
+  pair_swap w p ps funds sender offer amount bp ms to = Ok (w', (ret, spread, comm)) ->
+  let first := asset_eqb offer (p_a0 ps) in
+  let od := if first then p_d0 ps else p_d1 ps in
+  let ad := if first then p_d1 ps else p_d0 ps in
+  assert_max_spread bp ms amount ret spread od ad = Ok tt.
+Proof. exact pair_swap_guard. Qed.
+
+Print Assumptions C10_sys.
 Print Assumptions C10_structure.
 Print Assumptions C10_normalise.
 Print Assumptions C10_belief_sound.
